@@ -1,0 +1,53 @@
+//go:build verif
+
+package csi
+
+import (
+	"github.com/biogo/hts/bgzf"
+	"github.com/biogo/hts/bgzf/index"
+)
+
+// VerifBin is a view of one index bin for the verification harness.
+type VerifBin struct {
+	Bin     uint32
+	Left    bgzf.Offset
+	Records uint64
+	Chunks  []bgzf.Chunk
+}
+
+// VerifRef is a view of one reference index for the verification harness.
+type VerifRef struct {
+	Bins     []VerifBin
+	HasStats bool
+	Stats    index.ReferenceStats
+}
+
+// VerifRawChunks returns the chunks found by the index before adjacent
+// chunks are merged.
+func (i *Index) VerifRawChunks(rid, beg, end int) []bgzf.Chunk {
+	old := adjacent
+	adjacent = index.Identity
+	defer func() { adjacent = old }()
+	return i.Chunks(rid, beg, end)
+}
+
+// VerifDump returns a copy of the index structure.
+func (i *Index) VerifDump() (refs []VerifRef, sorted bool, last int, minShift, depth uint32) {
+	for _, r := range i.refs {
+		var v VerifRef
+		for _, b := range r.bins {
+			v.Bins = append(v.Bins, VerifBin{Bin: b.bin, Left: b.left, Records: b.records, Chunks: append([]bgzf.Chunk(nil), b.chunks...)})
+		}
+		if r.stats != nil {
+			v.HasStats = true
+			v.Stats = *r.stats
+		}
+		refs = append(refs, v)
+	}
+	return refs, i.isSorted, i.lastRecord, i.minShift, i.depth
+}
+
+// VerifReg2binC04 exposes reg2bin.
+func VerifReg2binC04(beg, end int64, minShift, depth uint32) uint32 {
+	return reg2bin(beg, end, minShift, depth)
+}
